@@ -12,25 +12,89 @@ FRAMES = os.path.join(F.VERIF, "spec", "frames.json")
 
 
 def const_table(facts, fn):
-    """`match self { Size::Byte(_) => 1, ... }` -> ({variant: int}, problems)"""
-    body = rx.tail_expr(fn.body)
-    probs = []
-    if body is None or body["k"] != "match" or not rx.is_var(body["scrut"], "self") or len(fn.body["stmts"]) != 1:
-        return None, ["body is not a single `match self`"]
-    out = {}
-    for arm in body["arms"]:
-        val = rx.int_const(arm["body"])
-        for p in rx.pat_cases(arm["pat"]):
-            pv = rx.pat_variant(p)
-            if pv is None:
-                probs.append("wildcard/unrecognised arm %s" % psrc(p))
-                continue
-            if val is None:
-                probs.append("%s: value %s is not a constant" % (pv[0], src(arm["body"])))
-            out.setdefault(pv[0].split("::")[-1], val)
-        if arm["guard"] is not None:
-            probs.append("guarded arm")
+    """Value of a unit helper per variant of its enum, by interpreting the function (helper methods, constants, tuple
+    returns looked through): ({variant: int}, problems).  Every path must be selected by the variant of `self` alone and
+    end in a constant."""
+    from .. import emit
+
+    enum = F.norm_ty(fn.impl["self_ty"]) if fn.impl is not None else None
+    it = emit.Interp(facts)
+    out, probs = {}, []
+    try:
+        res = it.run_fn(fn.key)
+    except Exception as e:  # fail closed
+        return None, ["could not be interpreted: %s" % e]
+    for st, v in res:
+        if st.unknown:
+            probs.append("construct not understood: %s" % st.unknown[:2])
+            continue
+        variants, extra = [], []
+        for subj, lab in st.conds:
+            if subj == "self" and isinstance(lab, tuple):
+                variants = [x.split("::")[-1] for x in lab]
+            else:
+                extra.append("%s=%s" % (subj, lab))
+        if extra:
+            probs.append("the value depends on more than the variant: %s" % extra[:2])
+        if not variants:
+            variants = list(facts.variants(enum)) if enum in facts.enums and not out else []
+            if not variants:
+                probs.append("a path is not selected by the variant of self")
+        val = v.get("n") if isinstance(v, dict) and v.get("v") == "int" else None
+        if val is None:
+            probs.append("%s: value %s is not a constant" % ("|".join(variants), emit.canon(v)[:40] if isinstance(v, dict) else v))
+        for vn in variants:
+            if vn in out and out[vn] != val:
+                probs.append("%s has two values" % vn)
+            out.setdefault(vn, val)
     return out, probs
+
+
+def byte_size_semantic(facts):
+    """Size::byte_size, interpreted: on every path the value is (payload of self) × (the unit of that variant), where the unit
+    is either the call self.mult() or the constant mult() yields for the variant.  -> (ok, detail)"""
+    from .. import emit
+
+    fb = facts.fn("Size::byte_size")
+    mtab, mprobs = const_table(facts, facts.fn("Size::mult"))
+    it = emit.Interp(facts)
+    try:
+        res = it.run_fn(fb.key)
+    except Exception as e:
+        return False, "could not be interpreted: %s" % e
+    seen, bad = set(), []
+    for st, v in res:
+        if st.unknown:
+            bad.append("not understood: %s" % st.unknown[:2])
+            continue
+        variants = []
+        for subj, lab in st.conds:
+            if subj == "self" and isinstance(lab, tuple):
+                variants = [x.split("::")[-1] for x in lab]
+        if not (isinstance(v, dict) and v.get("kind") == "expr" and v.get("op") == "*" and len(v.get("operands", [])) == 2):
+            bad.append("value `%s` is not a product" % (emit.canon(v)[:60] if isinstance(v, dict) else v))
+            continue
+        ops = v["operands"]
+        pay = [o for o in ops if isinstance(o, dict) and o.get("kind") == "payload" and o.get("enum") == "Size" and o.get("idx") == 0]
+        other = [o for o in ops if o not in pay]
+        if len(pay) != 1 or len(other) != 1:
+            bad.append("`%s` does not multiply the count carried by self" % emit.canon(v)[:60])
+            continue
+        pv = [x.split("::")[-1] for x in (pay[0].get("variants") or [pay[0].get("variant")]) if x]
+        vs = variants or pv or list(facts.variants("Size"))
+        o = other[0]
+        if isinstance(o, dict) and o.get("v") == "int":
+            wrong = [vn for vn in vs if (mtab or {}).get(vn) != o["n"]]
+            if wrong or mprobs:
+                bad.append("unit %s used for %s differs from mult()" % (o["n"], wrong or vs))
+                continue
+        elif not (isinstance(o, dict) and o.get("kind") == "mcall" and o.get("method") == "mult" and emit.canon(o.get("recv")) == "self" and not o.get("args")):
+            bad.append("`%s` is not the unit of the size" % (emit.canon(o)[:40] if isinstance(o, dict) else o))
+            continue
+        seen |= set(vs)
+    missing = [vn for vn in facts.variants("Size") if vn not in seen]
+    ok = not bad and not missing
+    return ok, ("count × unit for %s" % sorted(seen)) if ok else "; ".join(bad + (["variants not covered: %s" % missing] if missing else []))
 
 
 def units_rules(c, facts, rule):
@@ -173,22 +237,7 @@ def run(c, facts, tier):
     units_rules(c, facts, "C19.units")
     # C19.bytes
     fb = facts.fn("Size::byte_size")
-    tail = rx.tail_expr(fb.body)
-    ok = None
-    det = "shape not recognised"
-    if tail is not None:
-        tail = rx.peel(tail)
-        if tail["k"] == "binary" and tail["op"] == "*":
-            ops = [rx.peel(tail["lhs"]), rx.peel(tail["rhs"])]
-            unit = [o for o in ops if o["k"] == "mcall" and o["m"] == "mult" and rx.is_var(o["recv"], "self") and not o["args"]]
-            cnt = [o for o in ops if not (o["k"] == "mcall" and o["m"] == "mult")]
-            ok = len(unit) == 1 and len(cnt) == 1 and rx.self_payload(facts, "Size", fb, cnt[0])
-            extra = [st for st in fb.body["stmts"][:-1] if not (st["k"] == "let" and st.get("init") is not None and rx.is_var(st["init"], "self"))]
-            ok = ok and not extra
-            det = "returns `%s`: the count is the payload of self for every variant of Size: %s" % (src(tail), ok)
-        else:
-            ok = False
-            det = "returns `%s`, not count * self.mult()" % src(tail)
+    ok, det = byte_size_semantic(facts)
     c.ob("C19.bytes", fb.key, "count × mult() for every variant", ok, det)
     c.floor("Size+TimeSpec variants", len(facts.variants("Size")) + len(facts.variants("TimeSpec")), 11)
     # positive control: a disjunction with && is rejected by or_operands
